@@ -55,8 +55,19 @@ enum Fault {
 }
 
 #[derive(Debug, Clone, Copy, Serialize, Deserialize, PartialEq)]
+enum Sel {
+    Pool(u8),
+    /// the password the server currently accepts
+    ServerCurrent,
+    /// the password of the last verification the server accepted
+    LastVerified,
+    /// a password that was verified earlier but is not the last one
+    OlderVerified,
+}
+
+#[derive(Debug, Clone, Copy, Serialize, Deserialize, PartialEq)]
 enum Op {
-    Login(u8),
+    Login(Sel),
     ServerPw(u8),
     /// the next credential-verify request fails this way
     FailNextVerify(Fault),
@@ -252,8 +263,20 @@ fn histories(w: &mut World, h: &Hist) -> Outcome {
                 Op::Invalidate => {
                     let _ = resolver.invalidate().await;
                 }
-                Op::Login(k) => {
-                    let cred = pw(*k);
+                Op::Login(sel) => {
+                    let cred = match sel {
+                        Sel::Pool(k) => pw(*k),
+                        Sel::ServerCurrent => server.lock().expect("lock").pw.clone(),
+                        Sel::LastVerified => ever_verified.last().cloned().unwrap_or_else(|| pw(0)),
+                        Sel::OlderVerified => {
+                            let n = ever_verified.len();
+                            if n >= 2 {
+                                ever_verified[n - 2].clone()
+                            } else {
+                                pw(3)
+                            }
+                        }
+                    };
                     let accepted_before = server.lock().expect("lock").accepted.len();
                     let (_tx, rx) = tokio::sync::broadcast::channel(1);
                     let init = resolver
@@ -315,9 +338,8 @@ fn histories(w: &mut World, h: &Hist) -> Outcome {
                                 acceptable.push(cred.clone());
                                 log.class("online:server-accepted-but-login-failed");
                             }
-                            if !ever_verified.contains(&cred) {
-                                ever_verified.push(cred.clone());
-                            }
+                            ever_verified.retain(|x| *x != cred);
+                            ever_verified.push(cred.clone());
                         } else {
                             log.class(match res {
                                 Ok(PamAuthResponse::Denied) => "online:denied",
@@ -339,24 +361,65 @@ fn histories(w: &mut World, h: &Hist) -> Outcome {
     log.finish()
 }
 
+fn arb_sel() -> impl Strategy<Value = Sel> {
+    prop_oneof![
+        3 => (0u8..5).prop_map(Sel::Pool),
+        4 => Just(Sel::ServerCurrent),
+        4 => Just(Sel::LastVerified),
+        3 => Just(Sel::OlderVerified),
+    ]
+}
+
 fn arb_hist() -> impl Strategy<Value = Hist> {
+    let fault = prop_oneof![Just(Fault::Status500), Just(Fault::Status403), Just(Fault::Garbage), Just(Fault::Drop)];
+    // free-form histories
     let op = prop_oneof![
-        10 => (0u8..5).prop_map(Op::Login),
+        10 => arb_sel().prop_map(Op::Login),
         3 => (0u8..5).prop_map(Op::ServerPw),
-        1 => prop_oneof![Just(Fault::Status500), Just(Fault::Status403), Just(Fault::Garbage), Just(Fault::Drop)].prop_map(Op::FailNextVerify),
+        1 => fault.clone().prop_map(Op::FailNextVerify),
         3 => proptest::bool::weighted(0.8).prop_map(|noticed| Op::Down { noticed }),
         2 => Just(Op::Up),
         1 => Just(Op::Invalidate),
     ];
-    proptest::collection::vec(op, 3..14).prop_map(|ops| Hist { ops })
+    let free = proptest::collection::vec(op, 3..14).prop_map(|ops| Hist { ops });
+    // shaped histories: rounds of (online phase, server goes down, offline phase, server returns)
+    let online_op = prop_oneof![
+        6 => prop_oneof![3 => Just(Sel::ServerCurrent), 1 => (0u8..5).prop_map(Sel::Pool), 1 => Just(Sel::OlderVerified)].prop_map(Op::Login),
+        3 => (0u8..5).prop_map(Op::ServerPw),
+        1 => fault.prop_map(Op::FailNextVerify),
+        1 => Just(Op::Invalidate),
+    ];
+    let round = (
+        proptest::collection::vec(online_op, 1..6),
+        proptest::bool::weighted(0.85),
+        proptest::collection::vec(arb_sel(), 1..5),
+    );
+    let shaped = proptest::collection::vec(round, 1..4).prop_map(|rounds| {
+        let mut ops = Vec::new();
+        for (online, noticed, offline) in rounds {
+            ops.extend(online);
+            ops.push(Op::Down { noticed });
+            ops.extend(offline.into_iter().map(Op::Login));
+            ops.push(Op::Up);
+        }
+        Hist { ops }
+    });
+    prop_oneof![3 => shaped, 1 => free]
 }
 
 // =========================================================================== level 1
 
 #[derive(Debug, Clone, Copy, Serialize, Deserialize, PartialEq)]
+enum PSel {
+    Pool(u8),
+    /// the password the token of that machine currently caches (if any)
+    Cached,
+}
+
+#[derive(Debug, Clone, Copy, Serialize, Deserialize, PartialEq)]
 enum HOp {
     Update { m: bool, p: u8 },
-    Check { m: bool, p: u8 },
+    Check { m: bool, p: PSel },
     /// copy the cached credential of machine m's token into the other machine's token
     CopyTo { from: bool },
     Clear { m: bool },
@@ -438,8 +501,11 @@ fn helpers(ms: &mut (Mach, Mach), c: &HCase) -> Outcome {
             }
             HOp::Check { m, p } => {
                 let (t, mc, md) = if m { (&tok.0, &mut ms.0, &model.0) } else { (&tok.1, &mut ms.1, &model.1) };
+                let p = match p {
+                    PSel::Pool(i) => i % PWS.len() as u8,
+                    PSel::Cached => md.map(|(q, _)| q).unwrap_or(0),
+                };
                 let got = t.kanidm_check_cached_password(&pw(p), &mut mc.hsm, &mc.hmac);
-                let p = p % PWS.len() as u8;
                 let same_pw = md.map(|(q, _)| q == p).unwrap_or(false);
                 let same_key = md.map(|(_, k)| k == m).unwrap_or(false);
                 if got && !(same_pw && same_key) {
@@ -480,28 +546,32 @@ fn helpers(ms: &mut (Mach, Mach), c: &HCase) -> Outcome {
 
 fn arb_hcase() -> impl Strategy<Value = HCase> {
     let op = prop_oneof![
-        4 => (any::<bool>(), 0u8..5).prop_map(|(m, p)| HOp::Update { m, p }),
-        8 => (any::<bool>(), 0u8..5).prop_map(|(m, p)| HOp::Check { m, p }),
-        2 => any::<bool>().prop_map(|from| HOp::CopyTo { from }),
+        5 => (any::<bool>(), 0u8..5).prop_map(|(m, p)| HOp::Update { m, p }),
+        5 => (any::<bool>(), (0u8..5).prop_map(PSel::Pool)).prop_map(|(m, p)| HOp::Check { m, p }),
+        6 => any::<bool>().prop_map(|m| HOp::Check { m, p: PSel::Cached }),
+        3 => any::<bool>().prop_map(|from| HOp::CopyTo { from }),
         1 => any::<bool>().prop_map(|m| HOp::Clear { m }),
     ];
-    proptest::collection::vec(op, 2..12).prop_map(|ops| HCase { ops })
+    (any::<bool>(), 0u8..5, proptest::collection::vec(op, 2..12)).prop_map(|(m, p, mut ops)| {
+        ops.insert(0, HOp::Update { m, p });
+        HCase { ops }
+    })
 }
 
 fn main() {
     std::env::set_var("KANIDM_DEV_YOLO", "1");
     let cx = Check::from_args("C44", "exploration");
     cx.rule(
-        "resolver-histories: 3-13 ops {login with one of 5 passwords (two differ in one letter), server-side password change, one failing verify reply (500/403/garbage/drop), server down (noticed or not yet noticed by the resolver), server up, cache invalidation} \
+        "resolver-histories: 1-3 rounds of {online phase: logins (current server password / pool / an older verified one), server-side password changes, one failing verify reply, cache invalidation; server down (noticed or not); offline phase: 1-4 logins with the last verified / an older verified / the current server / a pool password; server up} plus free-form histories of 3-13 ops {login with one of 5 passwords (two differ in one letter), server-side password change, one failing verify reply (500/403/garbage/drop), server down (noticed or not yet noticed by the resolver), server up, cache invalidation} \
          against the real Resolver+KanidmProvider+kanidm_client over a loopback HTTP stub; every login is classified by the session the resolver chose (online/offline). \
          cache-helpers: 2-11 ops {update, check, copy cached credential to the other machine, clear} on two soft-TPM machines with their own machine and HMAC keys. \
          non-trivial = history with an offline accept of the last verified password AND an offline refusal of another password (helpers: an accept and a refusal for wrong password or foreign key); distinct by hash",
     );
     cx.assume("the KDF cost policy of the provider is lowered through a verif-hooks setter (production targets 250 ms per hash); connectivity changes are signalled to the resolver with its public mark_offline / mark_next_check_now + test_connection, as its daemon does");
     cx.assume("level 2 is judged one-directionally (offline accept => last password the server accepted); if the server accepted a password but the login did not complete, both that and the previous password are tolerated");
-    let n2 = cx.tier.pick(1_200, 40_000);
+    let n2 = cx.tier.pick(4_000, 80_000);
     cx.prop("resolver-histories", PropCfg::new(n2).shrink(200), arb_hist, world, |w, h| histories(w, h));
-    let n1 = cx.tier.pick(4_000, 150_000);
+    let n1 = cx.tier.pick(10_000, 300_000);
     cx.prop("cache-helpers", PropCfg::new(n1).shrink(500), arb_hcase, || (mach(), mach()), |m, c| helpers(m, c));
     if cx.class_count("harness:clear-cache-failed") > 0 {
         cx.inconclusive("resolver.clear_cache failed in the harness");
